@@ -27,13 +27,13 @@ def break_between(out):
     return any(any(se < b <= sx for b in breaks) for (j, sx, i, se) in out["pairs"])
 
 
-def build(sc, out):
+def build(sc, out, deterministic=False):
     """Model, input databox and plan of one scenario."""
     mode = sc["mode"]
     dev = bool(sc["dev"])
     logv = set(out["logv"])
     pathx = dict(out["pathx"])
-    m = model(out["src"], out["linear"])
+    m = model(out["src"], out["linear"], deterministic=deterministic)
     span = ir.Span(per(1), per(TN))
     db = ir.Databox.steady(m, ir.Span(per(-1), per(TN + 2)), deviation=dev)
     for j, n in enumerate(out["vars"]):
@@ -95,19 +95,19 @@ def describe(sc, out, method):
         sc["id"], method, _plain(out["pairs"]), sc["mode"], _plain(sc["prior"]), sc["dev"], _plain(sc["init"]), sorted(sc["u"]), sorted(sc["a"]))
 
 
-def check(chk, sc, out, method, split=False):
+def check(chk, sc, out, method, split=False, deterministic=False):
     payload = {"kind": "plan", "sc": _plain(sc), "pairs": _plain(out["pairs"]), "src": list(out["src"])}
     mode = sc["mode"]
-    tag = "plan:%s:%s:%s" % (method + ("/split-frames" if split else ""), mode, sc["id"])
+    tag = "plan:%s:%s:%s" % (method + ("/split-frames" if split else "") + ("/deterministic" if deterministic else ""), mode, sc["id"])
     if method == "stacked_time" and mode == "unant" and any(p[1] != p[3] for p in out["pairs"]):
         # known finding: the stacked-time simulator honours an unanticipated target only in the first period of a frame
         tag = "plan:stacked_time:unant:instrument-date-differs-from-target-date"
     if split and mode == "unant" and break_between(out):
         # known finding: frame by frame, an unanticipated target cannot be reached by an instrument of an earlier frame
         tag = "plan:first_order/split-frames:unant:frame-break-between-instrument-and-target"
-    desc = describe(sc, out, method + (" with force_split_frames=True" if split else ""))
+    desc = describe(sc, out, method + (" with force_split_frames=True" if split else "") + (" on the model created with deterministic=True" if deterministic else ""))
     try:
-        m, db, plan, span = build(sc, out)
+        m, db, plan, span = build(sc, out, deterministic=deterministic)
         kw = {"method": method, "plan": plan, "deviation": bool(sc["dev"])}
         if method == "stacked_time":
             kw["solver_settings"] = {"step_tolerance": 1e6}
@@ -151,7 +151,7 @@ def run(chk):
     dump = chk.scratch.file("plans.dump")
     r = tlc.must_pass(tlc.run("PlansMC", "PlansMC.thorough.cfg" if chk.tier == "thorough" else "PlansMC.cfg", chk.scratch, dump=dump, timeout=7200), "PlansMC")
     chk.add_tlc(r, "PlansMC")
-    n = skipped = 0
+    n = skipped = ndet = 0
     groups = {}
     for st in tlaval.parse_dump(dump, want=lambda b: "fin = TRUE" in b):
         sc, out = st["sc"], st["out"]
@@ -163,6 +163,11 @@ def run(chk):
         check(chk, sc, out, "first_order")
         check(chk, sc, out, "first_order", split=True)
         n += 2
+        if chk.tier == "thorough" or n % 3 == 0:
+            # the same model declared deterministic (no std parameters: shocks are add-factors); the meaning of a plan is unchanged
+            check(chk, sc, out, "first_order", deterministic=True)
+            n += 1
+            ndet += 1
         groups.setdefault((sc["id"], sc["mode"], sc["dev"], repr(_plain(out["pairs"]))), []).append((sc, out))
         if not sc["dev"]:                       # stacked time has no deviation mode
             check(chk, sc, out, "stacked_time")
@@ -187,6 +192,7 @@ def run(chk):
     if not nv:
         raise MachineryError("PlansMC: no pair of scenarios for the two-variant databox")
     chk.notes["two_data_variant_planned_simulations"] = nv
+    chk.notes["planned_simulations_on_deterministic_models"] = ndet
     chk.replayed += n + nv
     chk.no_claim += skipped
     chk.notes["singular_patterns_excluded"] = skipped
